@@ -91,7 +91,7 @@ RULE = ("a case = (class, flip_for_ds9, generated object): shape stratum x value
         "scales); non-trivial = unmasked values pairwise distinct (masks: both booleans present) and, for 2-D shapes "
         "with >= 2 rows, flipud(expected) != expected (1-D: reversed(expected) != expected), so an orientation error "
         "cannot hide; symmetric / constant draws are executed but counted trivial")
-BOUNDS = {"quick": "6 classes x 2 flip settings x 48 objects, shapes <= 12x15 plus the 359/360/361-value block-boundary "
+BOUNDS = {"quick": "6 classes x (2 flip settings x 48 objects + 24 objects with the option switched between consecutive cases), shapes <= 12x15 plus the 359/360/361-value block-boundary "
                    "shapes, <= 4 HDUs per multi-extension file",
           "thorough": "6 classes x 2 flip settings x 600 objects, same strata (silent for seeds 0-4 also at 840 objects)"}
 EXHAUSTIVE = {"quick": False, "thorough": False}
